@@ -62,7 +62,7 @@ CLAIMED = {
                 "section-5 arrays) with theorems for every sequence of children: repeating_member_is_list (a repeating "
                 "member is the list of its occurrences in document order, a list of one for one occurrence, absent for "
                 "none), single_member_is_value, nil_is_none, data_is_object, leaf_is_typed_text, xsi_type_selects_type, "
-                "leaf/nil round trips with the C01 marshaller; witness theorem for known finding D32. Tied to suds by "
+                "flat_struct_roundtrip (marshal then decode returns the value for every flat struct type and every assignment of texts: absent, single, repeating of any length) and leaf/nil round trips with the C01 marshaller; witness theorem for known finding D32. Tied to suds by "
                 "injecting, into real invocations, replies written by an independent writer in several presentations "
                 "of one infoset and comparing the returned data with the model and with a reference decoder.",
         "design_ref": "DESIGN.md section 6, C02",
